@@ -815,3 +815,152 @@ Proof.
   exists (save_prims m hd d s). split; [reflexivity|]. unfold save_prims.
   repeat split; apply in_or_app; right; cbn [In]; tauto.
 Qed.
+
+(* ---- key normalisation and the hash index ------------------------------------------------------------ *)
+(* a text without '/' is not cut *)
+Lemma split_plain s : plain_text s = true -> split_slash s = [s].
+Proof.
+  induction s as [|c s IH]; cbn [plain_text split_slash]; [reflexivity|].
+  intros H. apply andb_true_iff in H as [H Hs]. apply andb_true_iff in H as [Hc _].
+  apply negb_true_iff in Hc. rewrite Hc, (IH Hs). reflexivity.
+Qed.
+
+Lemma one_element_not_dots s : one_element s = true ->
+  String.eqb s "" = false /\ String.eqb s "." = false /\ String.eqb s ".." = false.
+Proof.
+  unfold one_element. intros H. apply andb_true_iff in H as [H0 Hp]. apply negb_true_iff in H0.
+  split; [exact H0|].
+  destruct s as [|c s]; [discriminate H0|]. cbn [plain_text] in Hp.
+  apply andb_true_iff in Hp as [Hp _]. apply andb_true_iff in Hp as [_ Hd]. apply negb_true_iff in Hd.
+  split; cbn [String.eqb]; rewrite Hd; reflexivity.
+Qed.
+
+(* normalisation does not touch "/i/" ++ text when the text is one clean element *)
+Lemma index_text_key_normal t : one_element t = true -> index_text_key t = ("/i/" ++ t)%string.
+Proof.
+  intros H. destruct (one_element_not_dots t H) as [E0 [E1 E2]].
+  unfold one_element in H. apply andb_true_iff in H as [_ Hp].
+  unfold index_text_key, key_clean. cbn [append split_slash Ascii.eqb Bool.eqb].
+  rewrite (split_plain t Hp). cbn [fold_left clean_step String.eqb Ascii.eqb Bool.eqb orb tl].
+  unfold clean_step. rewrite E0, E1, E2. cbn [orb rev app join_path fold_left append]. reflexivity.
+Qed.
+
+(* hence: whatever textual form [enc] of a hash the index key is built from - if it is injective and always ONE clean
+   element, the normalised keys of two different hashes differ *)
+Lemma index_text_key_inj (enc : string -> string) :
+  (forall a b, enc a = enc b -> a = b) -> (forall a, one_element (enc a) = true) ->
+  forall a b, index_text_key (enc a) = index_text_key (enc b) -> a = b.
+Proof.
+  intros Hinj Hone a b E. rewrite !index_text_key_normal in E by apply Hone.
+  apply Hinj. eapply append_inj_r; exact E.
+Qed.
+
+(* the hex text of a hash has neither '/' nor '.' in it *)
+Lemma hexdigit_plain b3 b2 b1 b0 :
+  Ascii.eqb (hexdigit b3 b2 b1 b0) "/"%char = false /\ Ascii.eqb (hexdigit b3 b2 b1 b0) "."%char = false.
+Proof. destruct b3, b2, b1, b0; split; reflexivity. Qed.
+
+Lemma hex_plain h : plain_text (hex h) = true.
+Proof.
+  induction h as [|a h IH]; [reflexivity|].
+  destruct a as [a0 a1 a2 a3 a4 a5 a6 a7]. cbn [hex hex_hi hex_lo plain_text].
+  destruct (hexdigit_plain a7 a6 a5 a4) as [-> ->], (hexdigit_plain a3 a2 a1 a0) as [-> ->].
+  cbn [negb andb]. exact IH.
+Qed.
+
+Lemma hex_one_element h : h <> "" -> one_element (hex h) = true.
+Proof.
+  intros Hne. unfold one_element. rewrite hex_plain, andb_true_r.
+  destruct h as [|a h]; [congruence|]. reflexivity.
+Qed.
+
+(* the index key of a (non-empty) hash is a fixed point of the normalisation: what GenerateKey / ds.NewKey hand to the
+   database IS "/i/" ++ hex hash *)
+Theorem index_key_normal h : h <> "" -> index_text_key (hex h) = index_key h.
+Proof. intros Hne. apply index_text_key_normal, hex_one_element, Hne. Qed.
+
+(* and for ALL hashes (the empty one included: its key is "/i"), normalisation identifies no two of them *)
+Theorem index_key_clean_inj a b : index_text_key (hex a) = index_text_key (hex b) -> a = b.
+Proof.
+  destruct a as [|x a], b as [|y b]; [reflexivity | | |].
+  - rewrite (index_key_normal (String y b)) by discriminate.
+    destruct y as [y0 y1 y2 y3 y4 y5 y6 y7]. vm_compute. intros E; discriminate E.
+  - rewrite (index_key_normal (String x a)) by discriminate.
+    destruct x as [x0 x1 x2 x3 x4 x5 x6 x7]. vm_compute. intros E; discriminate E.
+  - rewrite !index_key_normal by discriminate. unfold index_key. intros E.
+    apply hex_inj. eapply append_inj_r; exact E.
+Qed.
+
+(* ---- reads by a hash that was never handed to SaveBlockData ------------------------------------------- *)
+Lemma a_run_from_past h : forall a past hp,
+  from_past a past -> from_past (fst (a_run a h hp)) (saves h ++ past).
+Proof.
+  induction h as [|i h IH]; intros a past hp Hp; [exact Hp|].
+  rewrite saves_cons.
+  assert (Hw : forall a', from_past a' (item_saves i ++ past) ->
+                          forall hp', from_past (fst (a_run a' h hp')) ((item_saves i ++ saves h) ++ past)).
+  { intros a' Ha' hp'. eapply from_past_weaken; [apply (IH a' (item_saves i ++ past) hp' Ha')|].
+    intros x Hx. apply in_app_or in Hx as [Hx|Hx]; [apply in_or_app; left; apply in_or_app; right; exact Hx|].
+    apply in_app_or in Hx as [Hx|Hx]; [apply in_or_app; left; apply in_or_app; left; exact Hx | apply in_or_app; right; exact Hx]. }
+  assert (Hkeep : from_past a (item_saves i ++ past)).
+  { eapply from_past_weaken; [exact Hp|]. intros x Hx; apply in_or_app; right; exact Hx. }
+  destruct i as [o| |o k|o k]; cbn [a_run].
+  - pose proof (from_past_step a past o Hp) as Hs.
+    destruct (a_step a o) as [a' x] eqn:Ea. cbn [fst] in Hs.
+    specialize (Hw a' Hs hp). destruct (a_run a' h hp) as [a'' os]. exact Hw.
+  - specialize (Hw a Hkeep hp). destruct (a_run a h hp) as [a'' os]. exact Hw.
+  - destruct hp as [|b hp].
+    + specialize (Hw a Hkeep []). destruct (a_run a h []) as [a'' os]. exact Hw.
+    + destruct b.
+      * specialize (Hw (fst (a_step a o)) (from_past_step a past o Hp) hp).
+        destruct (a_run (fst (a_step a o)) h hp) as [a'' os]. exact Hw.
+      * specialize (Hw a Hkeep hp). destruct (a_run a h hp) as [a'' os]. exact Hw.
+  - unfold a_fault_step. destruct (k <? a_writes a o)%nat.
+    + specialize (Hw a Hkeep hp). destruct (a_run a h hp) as [a'' os]. exact Hw.
+    + pose proof (from_past_step a past o Hp) as Hs.
+      destruct (a_step a o) as [a' x] eqn:Ea. cbn [fst] in Hs.
+      specialize (Hw a' Hs hp). destruct (a_run a' h hp) as [a'' os]. exact Hw.
+Qed.
+
+(* a read by a hash that no header ever handed to SaveBlockData has (completed, crashed or failed save alike) finds
+   nothing: neither a block nor a signature *)
+Theorem by_hash_unwritten (h : list item) (hash : string) :
+  hash_consistentb (saves h) = true ->
+  (forall hd, In hd (saves h) -> hhash hd <> hash) ->
+  snd (step (final h) (OGetByHash hash)) = RErr /\ snd (step (final h) (OGetSigByHash hash)) = RErr.
+Proof.
+  intros Hc Hnew. destruct (store_refines h Hc) as [hp [_ HR]].
+  pose proof (a_run_from_past h a_init [] hp ltac:(intros n b; discriminate)) as Hp. rewrite app_nil_r in Hp.
+  set (a := fst (a_run a_init h hp)) in *.
+  assert (Hn : a_by_hash (a_blocks a) hash = None).
+  { pose proof (a_by_hash_spec _ hash (R_nodup _ _ HR) (R_ok _ _ HR)) as S.
+    destruct (a_by_hash (a_blocks a) hash) as [b|]; [|reflexivity].
+    destruct S as [S1 S2]. exfalso. apply (Hnew (b_hdr b)); [eapply Hp; exact S2 | exact S1]. }
+  split.
+  - destruct (R_step _ _ (OGetByHash hash) HR ltac:(intros ? ? ? X; discriminate X)) as [E _]. rewrite E.
+    cbn [a_step snd]. rewrite Hn. reflexivity.
+  - destruct (R_step _ _ (OGetSigByHash hash) HR ltac:(intros ? ? ? X; discriminate X)) as [E _]. rewrite E.
+    cbn [a_step snd]. rewrite Hn. reflexivity.
+Qed.
+
+(* a signature read by hash returns the signature record of the block currently stored under that hash *)
+Theorem sig_by_hash_sound (h : list item) (hash : string) :
+  hash_consistentb (saves h) = true ->
+  match snd (step (final h) (OGetSigByHash hash)) with
+  | RSig s => exists hd d, snd (step (final h) (OGetByHash hash)) = RBlock hd d /\ hhash hd = hash /\
+                           snd (step (final h) (OGetSig (hheight hd))) = RSig s
+  | RErr => snd (step (final h) (OGetByHash hash)) = RErr
+  | _ => False
+  end.
+Proof.
+  intros Hc. destruct (store_refines h Hc) as [hp [_ HR]].
+  set (a := fst (a_run a_init h hp)) in *.
+  destruct (R_step _ _ (OGetSigByHash hash) HR ltac:(intros ? ? ? X; discriminate X)) as [E _]. rewrite E.
+  destruct (R_step _ _ (OGetByHash hash) HR ltac:(intros ? ? ? X; discriminate X)) as [E1 _]. rewrite E1.
+  cbn [a_step snd].
+  pose proof (a_by_hash_spec _ hash (R_nodup _ _ HR) (R_ok _ _ HR)) as S.
+  destruct (a_by_hash (a_blocks a) hash) as [b|]; [|reflexivity].
+  destruct S as [S1 S2]. exists (b_hdr b), (b_data b). split; [reflexivity|]. split; [exact S1|].
+  destruct (R_step _ _ (OGetSig (hheight (b_hdr b))) HR ltac:(intros ? ? ? X; discriminate X)) as [E2 _]. rewrite E2.
+  cbn [a_step snd]. rewrite S2. reflexivity.
+Qed.
